@@ -918,7 +918,6 @@ package log
 //@   ensures[C07:rep] json_rep(enc.last, stk[enc]) && stk_ok(stk[enc])
 //@   ensures[C07:token] enc.buf.out == bsnoc(binit(enc.buf.out), 34) && Ext(bsnoc(old(preV(enc)), 34), binit(enc.buf.out), RP(v, len(v)))
 
-
 //@ func (*JSONEncoder).AppendReflect
 //@   requires jsonOK(enc) && value_legal(stk[enc])
 //@   modifies enc.last, enc.buf.out, lastMarshal, lastMarshalErr
@@ -1049,7 +1048,6 @@ package log
 //@   ensures[C08:top-level-marshalled] old(enc.jsonDepth) == 0 && lastMarshalErr == nil ==> enc.buf.out == bapp(old(enc.buf.out), content(lastMarshal))
 //@   ensures[C08:top-level-error-text-escaped] old(enc.jsonDepth) == 0 && lastMarshalErr != nil ==> Ext(old(enc.buf.out), enc.buf.out, RP(error.Error(lastMarshalErr), len(error.Error(lastMarshalErr))))
 //@   ensures[C08:nested-as-json] old(enc.jsonDepth) > 0 && lastMarshalErr == nil ==> enc.buf.out == bapp(old(preV(enc.jsonEncoder)), content(lastMarshal))
-
 
 // ---- C07 / C08: fields against the Encoder interface ---------------------------------------------------
 // Interface-level contracts: the logical structure stack stk[ifval(enc)] and the abstract token trace
@@ -1277,7 +1275,6 @@ package log
 //@   loop 1 invariant[C07:rep] encRep(enc)
 //@   loop 1 invariant[C07:in-array] inArray(stk[ifval(enc)]) && sameFrame(stk[ifval(enc)], old(stk[ifval(enc)])) && fcnt(shead(stk[ifval(enc)])) == old(fcnt(shead(stk[ifval(enc)]))) + $k
 
-
 //@ func Any
 //@   modifies nothing
 //@   ensures[C07:any-key] result.Key == key && fieldWF(result) && result.Type != 7 && result.Type != 8
@@ -1386,7 +1383,6 @@ package log
 //@ func Msg
 //@   modifies nothing
 //@   ensures[C07:msg] result.Key == "msg" && result.Type == 4 && dyn(result.Any, *byte) && str_of(as(result.Any, *byte), result.Num) == msg
-
 
 // ---- C03 / C07 / C08: the layouts ---------------------------------------------------------------------------
 
@@ -1516,8 +1512,9 @@ package log
 //@   ensures[C02:route] result == route(cTags, cRoot, tag)
 
 // ---- C01 / C15: wiring the appender references of a configured logger ------------------------------------
-// NewPlugin hands Refresh a non-nil pointer to one of the registered logger classes; the references of a
-// (sync or async) logger are distinct non-nil objects created by injectElement.
+// NewPlugin hands Refresh a non-nil pointer to an instance of a logger class (one of the six registered
+// here, or one registered by the application); the references of a (sync or async) logger are distinct
+// non-nil objects created by injectElement.
 //@ spec fun plugOf(v reflect.Value) any = reflect.Value.Interface(v)
 //@ spec fun hasRefs(x any) bool = dyn(x, *SyncLogger) || dyn(x, *AsyncLogger)
 //@ spec fun registeredLogger(x any) bool = (hasRefs(x) || dyn(x, *DiscardLogger) || dyn(x, *ConsoleLogger) || dyn(x, *FileLogger) || dyn(x, *RollingFileLogger)) && ifval(x) != 0
@@ -1525,13 +1522,14 @@ package log
 //@ spec fun refsFresh(c *AppenderRefs) bool = (forall k int :: 0 <= k && k < len(c.AppenderRefs) ==> c.AppenderRefs[k] != nil) && distinctRefs(c)
 
 //@ func Refresh/initAppenderRefs
-//@   requires registeredLogger(plugOf(v)) && cAppenders != nil
+//@   requires plugOf(v) != nil && cAppenders != nil
 //@   requires hasRefs(plugOf(v)) ==> refsFresh(refsOf(plugOf(v)))
 //@   requires forall n string :: has(cAppenders, n) ==> cAppenders[n] != nil
 //@   let x = plugOf(v)
 //@   modifies elemsof(refsOf(x).AppenderRefs), all(AppenderRef.Level), all(AppenderRef.Appender)
 //@   nopanic[C01,C15]
 //@   ensures[C15:base-or-error] result1 == nil ==> result0 != nil
+//@   ensures[C15:registered-classes-are-accepted] registeredLogger(x) && !hasRefs(x) ==> result1 == nil
 //@   ensures[C15:dangling-reference-is-an-error] hasRefs(x) && (exists k int :: 0 <= k && k < len(refsOf(x).AppenderRefs) && !has(cAppenders, old(refsOf(x).AppenderRefs[k]).Ref)) ==> result1 != nil
 //@   ensures[C01,C15:references-resolved] hasRefs(x) && result1 == nil ==> wfRefs(refsOf(x)) && (forall k int :: 0 <= k && k < len(refsOf(x).AppenderRefs) ==> refsOf(x).AppenderRefs[k].Appender == cAppenders[refsOf(x).AppenderRefs[k].Ref])
 //@   ensures[C01:ranges-chained] hasRefs(x) && result1 == nil ==> sortedRefs(refsOf(x))
